@@ -97,6 +97,14 @@ func (rt *RoundTripper) cacheResponse(req *http.Request, resp *http.Response) {
 		return
 	}
 
+	// an Expires value, which is not a valid date, especially the value "0", means, the response is
+	// already expired (RFC 7234, section 5.3). It is not the same as the absence of that header.
+	if value := resp.Header.Get("Expires"); expires.IsZero() && len(value) != 0 {
+		if _, err = http.ParseTime(value); err != nil {
+			return
+		}
+	}
+
 	if expires.IsZero() {
 		if rt.DefaultCacheTTL == 0 {
 			return
